@@ -8,3 +8,15 @@ import "math/rand/v2"
 // that a monitor can replay a run. It is compiled only with the "verif" build
 // tag.
 func VerifReseed[T comparable](c *Counter[T], seed [32]byte) { c.rng = rand.NewChaCha8(seed) }
+
+// VerifSetSource replaces the random source of c with src. A monitor uses it
+// to script the outcomes of the counter's coin flips (every outcome has to
+// respect the counter's deterministic guarantees), for example to take a
+// counter through more halving rounds than any feasible stream would. It is
+// compiled only with the "verif" build tag.
+func VerifSetSource[T comparable](c *Counter[T], src rand.Source) { c.rng = src }
+
+// VerifThreshold reports the counter's current acceptance threshold p
+// (math.MaxUint64 >> rounds), so that a scripted source can place its draws
+// just below or above it.
+func VerifThreshold[T comparable](c *Counter[T]) uint64 { return c.p }
